@@ -11,6 +11,9 @@ CONSTANTS
   WildcardsFirst = TRUE
   LastGlobWins = TRUE
   LeadingStarZero = TRUE
+  Umbrella = FALSE
+  UVal = "p"
+  UmbrellaAfterConfig = TRUE
 INVARIANT TypeOK
 INVARIANT ClassesAgree
 INVARIANT PrecedenceAsDocumented
